@@ -44,6 +44,9 @@ def run(ctx):
     R4 = ctx.rule('C16.R4', 'MD5 sine table, shift amounts and initial words; SHA-1 initial words, round constants and padding decision equal the standards')
     R6 = ctx.rule('C16.R6', 'AES-CBC (OpenSSL back-end): the chaining value lives in the object - every AES_cbc_encrypt call is given the member IV of its direction, set_iv fills both, and each direction uses its own key schedule')
     R7 = ctx.rule('C16.R7', 'md5_process compresses the block it was handed: every pointer the message words are read through, and every copy into the word buffer, is derived from the `data` parameter (never from the state\'s pending-bytes buffer)')
+    R8 = ctx.rule('C16.R8', 'MD5 buffering: for every pending-byte level 0..63 and every piece length 1..130 md5_append hands md5_process exactly the 64-byte tiles of the byte stream in order, keeps the remainder at the start of the buffer and adds 8*n to the 64-bit bit count (with carry); md5_finish pads with 0x80, zeros to 56 mod 64, the little-endian bit count, and reads A,B,C,D out little-endian (abstract interpretation, md5_process replaced by a recorder)')
+    R9 = ctx.rule('C16.R9', 'HMAC key material (RFC 2104 step 1-2): both pads start as block_size zero bytes; a key not longer than the block is copied whole to the start of both pads before the pad constant is mixed in; a longer key is appended whole to the inner digest, read out, and its digest_size() bytes become the key of both pads; constructors clone the digest for the outer hash and call init(); append forwards the piece; the outer hash receives the whole inner digest')
+    R10 = ctx.rule('C16.R10', 'key objects carry the key bytes unchanged: read_from_file hands the whole file minus trailing blanks to set_hex (abstract interpretation over file contents by byte class, libc calls replaced by a model file) and rejects unreadable / empty / short-read files; set() copies exactly len bytes after releasing the old key; copy construction and assignment take (data,size) of the source; text constructors hand the whole text to set_hex; data()/size() return the stored fields')
     R5 = ctx.rule('C16.R5', 'hex key decoding: exactly [0-9A-Fa-f] accepted, value = nibble, odd length rejected')
 
     # ---------------- R1
@@ -83,6 +86,49 @@ def run(ctx):
         want = 'SHA%s_Init' % nbits if f.kind == 'ctor' else 'SHA%s_Update' % nbits
         ctx.check(sha == [want], R1, 'ssl_sha%s::%s:own-family' % (nbits, 'ctor' if f.kind == 'ctor' else 'append'), 'uses %s instead of %s' % (sha, want), f.where)
 
+    for f in [g for g in P.fns.values() if g.brecord and g.brecord.rsplit('::', 1)[-1] in ('md5_digets', 'sha1_digets') and (g.kind == 'ctor' or g.short == 'append') and g.body is not None]:
+        cls = f.brecord.rsplit('::', 1)[-1]
+        if f.kind == 'ctor' and f.params and 'digets' in (f.types[f.params[0]['t']] or ''):
+            continue        # copy constructor
+        want = {('md5_digets', True): 'md5_init', ('md5_digets', False): 'md5_append', ('sha1_digets', True): 'sha1::reset', ('sha1_digets', False): 'sha1::process_bytes'}[(cls, f.kind == 'ctor')]
+        hits = [i for i in f.calls() if (f.callee(i) or '').endswith(want)]
+        ok = len(hits) == 1 and q.always_before_exit(f, hits)
+        if ok and f.kind != 'ctor':
+            a = f.args(hits[0])
+            ok = len(a) >= 2 and set(f.subtree_refs(a[-2])) == {q.param_by_index(f, 0)} and set(f.subtree_refs(a[-1])) == {q.param_by_index(f, 1)}
+        ctx.check(ok, R1, '%s::%s:own-family' % (cls, 'ctor' if f.kind == 'ctor' else 'append'), 'does not hand %s to %s on every path' % ('the state' if f.kind == 'ctor' else '(ptr,size)', want), f.where)
+    for f in sorted(P.overriders_of(CR + '::message_digest::clone'), key=lambda g: g.id):
+        if f.body is None:
+            continue
+        rets = [i for i in f.all_nodes() if f.N(i)['k'] == 'ReturnStmt']
+        news = [f.N(j).get('nt') for i in rets for j in f.walk(i) if f.N(j)['k'] == 'CXXNewExpr']
+        ctx.check(bool(rets) and len(news) == len(rets) and all(x == f.brecord for x in news) and q.always_before_exit(f, rets), R1, '%s::clone:new-object-of-own-class' % f.brecord.rsplit('::', 1)[-1],
+                  'clone() returns %s' % (news or 'nothing'), f.where)
+    # sha1 read-out: the five state words leave most significant byte first
+    sro = [f for f in ros if f.brecord.endswith('sha1_digets')]
+    if sro:
+        f = sro[0]
+        gdc = [i for i in f.calls() if (f.callee(i) or '').endswith('sha1::get_digest')]
+        words = [0x01020304, 0x11121314, 0x21222324, 0x31323334, 0x41424344]
+
+        def gd_hook(it, fn, i, env):
+            lv = it.lval_or_tmp(fn, fn.args(i)[0], env)
+            arr = lv.v if isinstance(lv, Cell) else lv
+            if isinstance(arr, PV):
+                arr = arr.arr
+            for k_, w_ in enumerate(words):
+                arr.elems[k_] = AV.const(w_)
+            return None
+        it = absint.Interp(P, [], hooks={'cppcms::impl::sha1::get_digest': gd_hook, 'cppcms::impl::sha1::reset': lambda it, fn, i, env: None})
+        it.fields = {}
+        out = Arr([AV.const(0xEE)] * 24, 'ptr')
+        try:
+            it.call_fn(f, [PV(out, 0)])
+            got = [e.lo & 0xFF for e in out.elems]
+            oks, whys = got == list(struct.pack('>5I', *words)) + [0xEE] * 4, 'bytes written are %s' % bytes(got).hex()
+        except (absint.OutOfBounds, absint.Unsupported) as e:
+            oks, whys = False, str(e)
+        ctx.check(oks, R1, 'sha1_digets::readout:five-words-big-endian', whys, f.where)
     # ---------------- R3
     for f in [g for g in P.fns.values() if g.short in ('digest_size', 'block_size', 'name') and g.brecord and g.brecord.rsplit('::', 1)[-1] in fam]:
         cls = f.brecord.rsplit('::', 1)[-1]
@@ -191,6 +237,69 @@ def run(ctx):
     last = [i for i in hr.calls() if hr.bcallee(i) == CR + '::message_digest::readout' and hr.ref_of(hr.args(i)[0]) == outp]
     ctx.check(len(last) == 1 and 'md_opad_' in ''.join(hr.access_path(hr.obj(last[0])) or ()), R2, 'hmac::readout:result-is-outer-digest', 'caller receives something other than the outer digest', hr.where)
 
+    # ---------------- R9 HMAC key material: where the key bytes go
+    padvars = sorted(set(a for a, _, _, _ in xs if a and a != '?'))
+    keycall = lambda f, e, what: any(q.short_of(f.callee(j) or '') == what and f.obj(j) is not None and 'key_' in ''.join(f.access_path(f.obj(j)) or ()) for j in q.expr_calls_deep(f, e))
+    dcall = lambda f, e, what: any(q.short_of(f.callee(j) or '') == what and (f.bcallee(j) or '').startswith(CR + '::message_digest::') for j in q.expr_calls_deep(f, e))
+    for pv_ in padvars:
+        ini = [d for i in hi.all_nodes() if hi.N(i)['k'] == 'DeclStmt' for d in hi.N(i)['decls'] if d['ref'] == pv_]
+        okz = False
+        if ini and ini[0].get('init') is not None:
+            ce = hi.N(hi.strip(ini[0]['init']))
+            a_ = ce.get('ch', []) if ce['k'] == 'CXXConstructExpr' else []
+            a_ = [x for x in a_ if hi.N(x)['k'] != 'CXXDefaultArgExpr']
+            okz = 1 <= len(a_) <= 2 and hi.ref_of(a_[0]) in bsv and (len(a_) == 1 or hi.const_value(a_[1]) == 0)
+        ctx.check(okz, R9, 'hmac::init:%s:block-of-zeros' % nm(pv_), 'the pad does not start as block_size zero bytes (short keys must be zero-extended to the block)', hi.where)
+    copies = [i for i in hi.calls() if (hi.callee(i) or '') in ('memcpy', 'memmove', '__builtin_memcpy') or q.short_of(hi.callee(i) or '') == 'copy']
+    g_short = hi.gate_edges(lambda atom, pol: hi.N(atom)['k'] == 'BinaryOperator' and hi.N(atom).get('op') == '>' and any(q.short_of(hi.callee(j)) == 'size' for j in q.expr_calls_deep(hi, hi.N(atom)['ch'][0])) and pol is False)
+    for pv_ in padvars:
+        mine = [i for i in copies if len(hi.args(i)) == 3 and pv_ in hi.subtree_refs(hi.args(i)[0]) and keycall(hi, hi.args(i)[1], 'data')]
+        okk = len(mine) == 1 and keycall(hi, hi.args(mine[0])[2], 'size') and hi.only_through(mine[0], g_short) and not [r for r in hi.subtree_refs(hi.args(mine[0])[0]) if r != pv_ and r.startswith('v:')]
+        first_x = [x[2] for x in xs if x[0] == pv_]
+        okk = okk and bool(first_x) and q.reaches(hi, mine[0], first_x[0]) and not q.reaches(hi, first_x[0], mine[0])
+        ctx.check(okk, R9, 'hmac::init:%s:short-key-copied-whole-before-xor' % nm(pv_), 'a key not longer than the block is not copied (data(), size()) to the start of the pad before the pad constant is mixed in', hi.where)
+    ok_long = len(ro_in) == 1
+    why_l = 'no single readout of the hashed key'
+    if ok_long:
+        tgt_pad = [r for r in hi.subtree_refs(hi.args(ro_in[0])[0]) if r in padvars]
+        kap = [i for i in apps if keycall(hi, hi.args(i)[0], 'data') and keycall(hi, hi.args(i)[1], 'size') and 'md_opad_' not in ''.join(hi.access_path(hi.obj(i)) or ())]
+        ok_long = len(tgt_pad) == 1 and len(kap) == 1 and q.before(hi, kap[0], ro_in[0]) and hi.only_through(kap[0], g_long)
+        why_l = 'the long key is not appended whole (data(), size()) to the inner digest before its read-out into a pad'
+        if ok_long:
+            for pv_ in padvars:
+                if pv_ == tgt_pad[0]:
+                    continue
+                cp = [i for i in copies if len(hi.args(i)) == 3 and pv_ in hi.subtree_refs(hi.args(i)[0]) and tgt_pad[0] in hi.subtree_refs(hi.args(i)[1])]
+                if not (len(cp) == 1 and dcall(hi, hi.args(cp[0])[2], 'digest_size') and hi.only_through(cp[0], g_long) and q.before(hi, ro_in[0], cp[0]) and q.reaches(hi, cp[0], [x[2] for x in xs if x[0] == pv_][0]) and not q.reaches(hi, [x[2] for x in xs if x[0] == pv_][0], cp[0])):
+                    ok_long, why_l = False, 'the hashed key (digest_size() bytes) does not reach the %s block' % nm(pv_)
+    ctx.check(ok_long, R9, 'hmac::init:long-key:digest-becomes-the-key-of-both-pads', why_l, hi.where)
+    hctors = [f for f in P.fns.values() if f.kind == 'ctor' and f.brecord == CR + '::hmac' and f.body is not None and not (f.params and 'hmac' in (f.types[f.params[0]['t']] or ''))]
+    ctx.require(len(hctors) >= 2, 'C16.R9: hmac constructors not found')
+    for f in sorted(hctors, key=lambda g: g.id):
+        ini = [i for i in f.calls() if f.bcallee(i) == CR + '::hmac::init']
+        cl = [i for i in f.calls() if q.short_of(f.callee(i) or '') == 'clone' and 'md_' in ''.join(f.access_path(f.obj(i)) or ()) and 'md_opad_' not in ''.join(f.access_path(f.obj(i)) or ())]
+        rs = [i for i in f.calls() if q.short_of(f.callee(i) or '') in ('reset', 'operator=') and f.obj(i) is not None and 'md_opad_' in ''.join(f.access_path(f.obj(i)) or ()) and any(f.contains(i, c_) for c_ in cl)]
+        keyinit = any(x.get('field', '').endswith('hmac::key_') and q.param_by_index(f, 1) in f.subtree_refs(x['n']) for x in f.d.get('inits', []))
+        mdset = [i for i in f.calls() if q.short_of(f.callee(i) or '') in ('operator=', 'reset') and f.obj(i) is not None and 'md_' in ''.join(f.access_path(f.obj(i)) or ()) and 'md_opad_' not in ''.join(f.access_path(f.obj(i)) or ())
+                 and (q.param_by_index(f, 0) in q.deep_refs(f, i))]
+        keyinit = keyinit and len(mdset) == 1 and bool(cl) and q.before(f, mdset[0], cl[0])
+        okc_ = keyinit and len(ini) == 1 and len(cl) == 1 and len(rs) == 1 and q.always_before_exit(f, ini) and q.before(f, rs[0], ini[0])
+        ctx.check(okc_, R9, 'hmac::hmac#%d:outer-digest-cloned-then-init' % len(f.params) + ':' + (f.types[f.params[0]['t']] or '')[:24], 'the constructor does not clone the digest for the outer hash and prime both with init() on every normal path', f.where)
+    ha = P.fn(CR + '::hmac::append')
+    fw = [i for i in ha.calls() if ha.bcallee(i) == CR + '::message_digest::append']
+    okf = len(fw) == 1 and 'md_opad_' not in ''.join(ha.access_path(ha.obj(fw[0])) or ()) and [ha.ref_of(a_) for a_ in ha.args(fw[0])] == [q.param_by_index(ha, 0), q.param_by_index(ha, 1)] and q.always_before_exit(ha, fw)
+    ctx.check(okf, R9, 'hmac::append:forwards-piece-to-inner-digest', 'append does not hand (ptr,size) to the inner digest on every normal path', ha.where)
+    oap = [i for i in hr.calls() if hr.bcallee(i) == CR + '::message_digest::append']
+    rin = [i for i in hr.calls() if hr.bcallee(i) == CR + '::message_digest::readout' and 'md_opad_' not in ''.join(hr.access_path(hr.obj(i)) or ())]
+    oko = len(oap) == 1 and len(rin) == 1
+    if oko:
+        bufv = [r for r in hr.subtree_refs(hr.args(rin[0])[0]) if r.startswith('v:')]
+        oko = len(bufv) == 1 and bufv[0] in hr.subtree_refs(hr.args(oap[0])[0]) and dcall(hr, hr.args(oap[0])[1], 'digest_size')
+        if oko:
+            d_ = [d for i in hr.all_nodes() if hr.N(i)['k'] == 'DeclStmt' for d in hr.N(i)['decls'] if d['ref'] == bufv[0]]
+            oko = bool(d_) and d_[0].get('init') is not None and dcall(hr, d_[0]['init'], 'digest_size')
+    ctx.check(oko, R9, 'hmac::readout:outer-hash-gets-whole-inner-digest', 'the outer hash is not fed the digest_size() bytes read out of the inner hash', hr.where)
+
     # ---------------- R4
     mp = P.fn('cppcms::impl::md5_process', must=False) or [f for f in P.fns.values() if f.short == 'md5_process'][0]
     consts = maximal_consts(mp)
@@ -229,9 +338,9 @@ def run(ctx):
             blocks.append([e for e in it.fields[F + 'block_'].v.elems])
             return None
         it = absint.Interp(P, [], hooks={'cppcms::impl::sha1::process_block': hook})
-        msg_len = 64 * 3 + b
+        msg_len = 0x02345640 + b
         it.fields = {F + 'block_': Cell(Arr([AV.const(0x11)] * 64, 'block_')), F + 'block_byte_index_': Cell(AV.const(b)), F + 'byte_count_': Cell(AV.const(msg_len)),
-                     F + 'h_': Cell(Arr([AV.const(0)] * 5, 'h_'))}
+                     F + 'h_': Cell(Arr([AV.const(0xA0B0C0D0 + k_) for k_ in range(5)], 'h_'))}
         out = Arr([AV.const(0)] * 5, 'digest')
         it.call_fn(gd, [PV(out, 0)])
         want_blocks = 1 if b <= 55 else 2
@@ -240,12 +349,55 @@ def run(ctx):
             last = [e.lo & 0xFF for e in blocks[-1]]
             first = [e.lo & 0xFF for e in blocks[0]]
             okb = first[b] == 0x80 and all(v == 0 for v in first[b + 1:(56 if want_blocks == 1 else 64)]) and last[56:] == list(struct.pack('>Q', msg_len * 8)) and \
-                (want_blocks == 1 or all(v == 0 for v in last[:56])) and it.fields[F + 'block_byte_index_'].v.lo == 0
+                (want_blocks == 1 or all(v == 0 for v in last[:56])) and it.fields[F + 'block_byte_index_'].v.lo == 0 and [e.lo & 0xFFFFFFFF for e in out.elems] == [0xA0B0C0D0 + k_ for k_ in range(5)]
         if not okb:
             bad.append((b, len(blocks)))
     ctx.check(not bad, R4, 'sha1::get_digest:padding-for-every-fill-level', ('fill level %d: %d block(s) processed / wrong padding bytes (messages of length = %d mod 64 get a non-standard digest)' % (bad[0][0], bad[0][1], bad[0][0])) if bad else '',
               gd.where, detail={'fill_levels': 64})
 
+    # SHA-1 buffering: process_bytes for every fill level, reset, read-out of the state words
+    pbs = P.fn('cppcms::impl::sha1::process_bytes')
+    bad = []
+    nruns = 0
+    for b in range(64):
+        for nb in sorted(set(x for x in (1, 2, 63 - b, 64 - b, 65 - b, 64, 65, 127, 128, 129, 130) if x > 0)):
+            blocks = []
+
+            def hook(it, fn, i, env):
+                if fn.args(i):
+                    return NotImplemented
+                blocks.append([e for e in it.fields[F + 'block_'].v.elems])
+                return None
+            it = absint.Interp(P, [], hooks={'cppcms::impl::sha1::process_block': hook})
+            it.fields = {F + 'block_': Cell(Arr([AV.const(1 + j) if j < b else AV.const(0xEE) for j in range(64)], 'block_')), F + 'block_byte_index_': Cell(AV.const(b)),
+                         F + 'byte_count_': Cell(AV.const(640 + b)), F + 'h_': Cell(Arr([AV.const(0)] * 5, 'h_'))}
+            try:
+                it.call_fn(pbs, [PV(Arr([AV.const(100 + j) for j in range(nb)], 'buffer'), 0), AV.const(nb)])
+            except (absint.OutOfBounds, absint.Unsupported) as e:
+                bad.append((b, nb, str(e)))
+                continue
+            nruns += 1
+            stream = [1 + j for j in range(b)] + [100 + j for j in range(nb)]
+            want = [stream[k:k + 64] for k in range(0, len(stream) - 63, 64)]
+            rest = stream[len(want) * 64:]
+            got = [[(e.lo if e.is_const() else None) for e in bl] for bl in blocks]
+            fi = it.fields
+            if got != want:
+                bad.append((b, nb, 'blocks compressed are not the 64-byte tiles of the byte stream (%d compressed, %d expected)' % (len(got), len(want))))
+            elif [e.lo for e in fi[F + 'block_'].v.elems[:len(rest)]] != rest or fi[F + 'block_byte_index_'].v.lo != len(rest):
+                bad.append((b, nb, 'the %d pending bytes / the fill index are not kept' % len(rest)))
+            elif fi[F + 'byte_count_'].v.lo != 640 + b + nb:
+                bad.append((b, nb, 'byte count after the call is %s, expected %d' % (fi[F + 'byte_count_'].v, 640 + b + nb)))
+    ctx.check(not bad, R4, 'sha1::process_bytes:tiles-the-stream:every-fill-level', ('pending %d bytes, piece of %d: %s' % bad[0]) if bad else '', pbs.where, detail={'runs': nruns})
+    it = absint.Interp(P, [])
+    it.fields = {F + 'block_': Cell(Arr([AV.const(0x11)] * 64, 'block_')), F + 'block_byte_index_': Cell(AV.const(17)), F + 'byte_count_': Cell(AV.const(99)), F + 'h_': Cell(Arr([AV.const(7)] * 5, 'h_'))}
+    try:
+        it.call_fn(sr, [])
+        st_ = [e.lo & 0xFFFFFFFF for e in it.fields[F + 'h_'].v.elems] + [it.fields[F + 'block_byte_index_'].v.lo, it.fields[F + 'byte_count_'].v.lo]
+        okr, whyr = st_ == INIT + [0xC3D2E1F0, 0, 0], 'state after reset() is %s' % [hex(x) for x in st_]
+    except (absint.OutOfBounds, absint.Unsupported) as e:
+        okr, whyr = False, str(e)
+    ctx.check(okr, R4, 'sha1::reset:H0..H4-empty-buffer-zero-count', whyr, sr.where)
     # ---------------- R5
     fh = P.fn(CR + '::key::from_hex')
     bad = []
@@ -300,6 +452,182 @@ def run(ctx):
                     if not okv:
                         bad.append(('%02X-%02X' % (min(vals), max(vals)), 'decoded wrongly'))
         ctx.check(not bad, R5, 'key::set_hex:exact:position-%d' % pos, 'characters %s' % bad[:3], sh.where, detail={'boxes': nb})
+
+    def run_hex(text):
+        it = absint.Interp(P, [], hooks={K + 'reset': lambda it_, fn_, i_, env_: AV.const(0)})
+        it.fields = {'f:' + K + 'data_': Cell(AV.const(0)), 'f:' + K + 'size_': Cell(AV.const(0))}
+        r = it.call_fn(sh, [PV(Arr([AV.const(ord(c)) for c in text] + [AV.const(0)], 'hex'), 0), AV.const(len(text))])
+        return r, it.fields['f:' + K + 'data_'].v, it.fields['f:' + K + 'size_'].v
+    bad = []
+    try:
+        for n_ in (0, 2, 4, 6, 8, 16):
+            text = '1a2B3c4D5e6F7089'[:n_]
+            r, data, size = run_hex(text)
+            got = [e.lo & 0xFF for e in data.arr.elems] if isinstance(data, PV) else []
+            if (isinstance(r, tuple) and r and r[0] == 'throw') or got != list(bytes.fromhex(text)) or not (isinstance(size, AV) and size.is_const() and size.lo == n_ // 2):
+                bad.append('%d digits %r decode to %s (size %s)' % (n_, text, bytes(got).hex(), size))
+        for n_ in (4, 6):
+            for p_ in range(n_):
+                text = '1a2B3c'[:n_]
+                text = text[:p_] + 'g' + text[p_ + 1:]
+                r, data, size = run_hex(text)
+                if not (isinstance(r, tuple) and r and r[0] == 'throw'):
+                    bad.append('%r (invalid character at position %d) is accepted' % (text, p_))
+        for n_ in (1, 3, 5):
+            r, data, size = run_hex('1a2B3'[:n_])
+            if not (isinstance(r, tuple) and r and r[0] == 'throw'):
+                bad.append('%d digits are accepted' % n_)
+    except (absint.OutOfBounds, absint.Unsupported) as e:
+        bad.append(str(e))
+    ctx.check(not bad, R5, 'key::set_hex:every-pair-decoded-in-place:every-position-validated', '; '.join(bad[:3]), sh.where)
+
+    # ---------------- R10 key object plumbing
+    import itertools as _it
+    rf = P.fn(CR + '::key::read_from_file')
+    zero = lambda it_, fn_, i_, env_: AV.const(0)
+
+    def run_file(content, short_read=False, no_file=False):
+        got = []
+
+        def h_sethex(it_, fn_, i_, env_):
+            a_ = fn_.args(i_)
+            got.append((it_.rvalue(fn_, a_[0], env_), it_.rvalue(fn_, a_[1], env_)))
+            return None
+
+        def h_fread(it_, fn_, i_, env_):
+            a_ = fn_.args(i_)
+            p_, sz, cnt = it_.rvalue(fn_, a_[0], env_), it_.rvalue(fn_, a_[1], env_), it_.rvalue(fn_, a_[2], env_)
+            if not (isinstance(p_, PV) and sz.is_const() and cnt.is_const()):
+                raise absint.Unsupported('fread arguments')
+            n_ = min(sz.lo * cnt.lo, len(content) - (1 if short_read else 0))
+            for j in range(n_):
+                it_.store(('elem', PV(p_.arr, p_.off + j)), AV.const(ord(content[j])))
+            return AV.const(n_ // sz.lo if sz.lo else 0)
+        fo = (lambda it_, fn_, i_, env_: AV.const(0)) if no_file else (lambda it_, fn_, i_, env_: PV(Arr([AV.const(1)], 'FILE'), 0))
+        it = absint.Interp(P, [], hooks={K + 'reset': zero, K + 'set_hex': h_sethex, 'fread': h_fread, 'fopen': fo, 'booster::nowide::fopen': fo, 'setbuf': zero, 'fseek': zero, 'fclose': zero, 'rewind': zero,
+                                         'ftell': lambda it_, fn_, i_, env_: AV.const(len(content)), 'memset': zero})
+        it.fields = {}
+        r = it.call_fn(rf, [Cell(absint.Out('name'))])
+        return r, got
+    bad = []
+    nfile = 0
+    threw = lambda r: isinstance(r, tuple) and bool(r) and r[0] == 'throw'
+    try:
+        for n_ in range(1, 5):
+            for content in map(''.join, _it.product('a \n\r\tZ', repeat=n_)):
+                nfile += 1
+                r, got = run_file(content)
+                want = len(content.rstrip(' \n\r\t'))
+                if threw(r) or len(got) != 1 or not (isinstance(got[0][1], AV) and got[0][1].is_const() and got[0][1].lo == want) or not isinstance(got[0][0], PV) or got[0][0].off != 0 or \
+                        [e.lo for e in got[0][0].arr.elems[:want]] != [ord(c) for c in content[:want]]:
+                    bad.append('file content %r: set_hex receives %s, expected the first %d bytes' % (content, [(g[1]) for g in got] if not threw(r) else 'nothing (throws)', want))
+                    break
+        for (kw, what) in (({'short_read': True}, 'a short read'), ({'no_file': True}, 'a file that cannot be opened')):
+            r, got = run_file('abcd\n', **kw)
+            if not threw(r) or got:
+                bad.append('%s does not throw before any key is set' % what)
+        r, got = run_file('')
+        if not threw(r) or got:
+            bad.append('an empty key file is accepted')
+    except (absint.OutOfBounds, absint.Unsupported) as e:
+        bad.append(str(e))
+    ctx.check(not bad, R10, 'key::read_from_file:whole-file-minus-trailing-blanks-reaches-set_hex', '; '.join(bad[:3]), rf.where, detail={'file_contents': nfile})
+    ks = P.fn(CR + '::key::set')
+    bad = []
+    try:
+        for n_ in (0, 1, 5, 64, 65):
+            it = absint.Interp(P, [], hooks={K + 'reset': zero})
+            it.fields = {'f:' + K + 'data_': Cell(AV.const(0)), 'f:' + K + 'size_': Cell(AV.const(0))}
+            it.call_fn(ks, [PV(Arr([AV.const(10 + j) for j in range(n_)] + [AV.const(0xEE)], 'ptr'), 0), AV.const(n_)])
+            d_, z_ = it.fields['f:' + K + 'data_'].v, it.fields['f:' + K + 'size_'].v
+            if not (isinstance(d_, PV) and d_.off == 0 and [e.lo for e in d_.arr.elems] == [10 + j for j in range(n_)] and z_.is_const() and z_.lo == n_):
+                bad.append('set(ptr,%d) stores %s bytes, size %s' % (n_, len(d_.arr.elems) if isinstance(d_, PV) else 'no', z_))
+    except (absint.OutOfBounds, absint.Unsupported) as e:
+        bad.append(str(e))
+    rs_ = [i for i in ks.calls() if ks.bcallee(i) == CR + '::key::reset']
+    ctx.check(not bad and len(rs_) == 1 and all(q.before(ks, rs_[0], i) for i in ks.all_nodes() if ks.N(i)['k'] == 'CXXNewExpr'), R10, 'key::set:copies-len-bytes-after-reset', '; '.join(bad[:2]) or 'old key not released first', ks.where)
+    for f in sorted([g for g in P.fns.values() if g.brecord == CR + '::key' and g.body is not None and (g.kind == 'ctor' or g.short == 'operator=') and g.params], key=lambda g: g.id):
+        t0 = f.types[f.params[0]['t']] or ''
+        p0 = q.param_by_index(f, 0)
+        if 'key' in t0:
+            cs_ = [i for i in f.calls() if f.bcallee(i) == CR + '::key::set']
+            okc_ = len(cs_) == 1
+            if okc_:
+                a_ = f.args(cs_[0])
+                src = lambda e, fld_, acc: (p0 in f.subtree_refs(e)) and (('f:' + K + fld_) in f.subtree_refs(e) or any(q.short_of(f.callee(j) or '') == acc for j in f.calls(e)))
+                okc_ = src(a_[0], 'data_', 'data') and src(a_[1], 'size_', 'size')
+                okc_ = okc_ and (f.kind == 'ctor' and q.always_before_exit(f, cs_) or f.kind != 'ctor')
+            ctx.check(okc_, R10, 'key::%s(key const&):copies-other-data-and-size' % ('key' if f.kind == 'ctor' else 'operator='), 'the copy does not take (data,size) of the source key', f.where)
+        elif len(f.params) == 1:
+            cs_ = [i for i in f.calls() if f.bcallee(i) == CR + '::key::set_hex']
+            okc_ = len(cs_) == 1
+            if okc_:
+                a_ = f.args(cs_[0])
+                okc_ = p0 in f.subtree_refs(a_[0]) and p0 in f.subtree_refs(a_[1]) and any((f.callee(j) or '') in ('strlen', '__builtin_strlen') or q.short_of(f.callee(j) or '') in ('size', 'length') for j in f.calls(a_[1]))
+            ctx.check(okc_, R10, 'key::key(%s):whole-text-to-set_hex' % t0[:20].strip(), 'the hexadecimal text is not handed whole (pointer, its length) to set_hex', f.where)
+        elif len(f.params) == 2:
+            cs_ = [i for i in f.calls() if f.bcallee(i) == CR + '::key::set']
+            okc_ = len(cs_) == 1 and [f.ref_of(x) for x in f.args(cs_[0])] == [p0, q.param_by_index(f, 1)] and q.always_before_exit(f, cs_)
+            ctx.check(okc_, R10, 'key::key(ptr,len):set', 'the binary key is not stored whole', f.where)
+    for f in sorted([g for g in P.fns.values() if g.brecord == CR + '::key' and g.body is not None and g.kind == 'ctor'], key=lambda g: g.id):
+        iz = dict((x.get('field', ''), f.const_value(x['n'])) for x in f.d.get('inits', []))
+        ctx.check(iz.get('f:' + K + 'data_') == 0 and iz.get('f:' + K + 'size_') == 0, R10, 'key::key#%s:starts-empty' % ','.join((f.types[p_['t']] or '')[:12].strip() for p_ in f.params),
+                  'the constructor does not start from the empty key (data_ = 0, size_ = 0): initialisers %s' % iz, f.where)
+    ka = [g for g in P.fns.values() if g.brecord == CR + '::key' and g.short == 'operator=' and g.body is not None]
+    for f in ka:
+        p0 = q.param_by_index(f, 0)
+        same = f.gate_edges(lambda atom, pol: f.N(atom)['k'] == 'BinaryOperator' and f.N(atom).get('op') in ('==', '!=') and p0 in f.subtree_refs(atom) and any(f.N(j)['k'] == 'CXXThisExpr' for j in f.walk(atom)) and
+                            pol is (f.N(atom).get('op') == '=='))
+        cs_ = [i for i in f.calls() if f.bcallee(i) == CR + '::key::set']
+        reach = set(f.reachable_blocks(cut_edges=[(g_[0], g_[1]) for g_ in same])) if same else None
+        ok_ = len(cs_) == 1 and (not same or f.point_of(cs_[0])[0] in reach)
+        rets = [i for i in f.all_nodes() if f.N(i)['k'] == 'ReturnStmt']
+        ok_ = ok_ and bool(rets) and all(any(f.N(j)['k'] == 'CXXThisExpr' for j in f.walk(i)) for i in rets)
+        ctx.check(ok_, R10, 'key::operator=:assigns-from-a-different-key', 'assignment from a different key object does not reach set() (or does not return *this)', f.where)
+    for f in [g for g in P.fns.values() if g.brecord == CR + '::key' and g.kind == 'ctor' and g.body is not None and len(g.params) == 1 and (g.types[g.params[0]['t']] or '').replace('const ', '').strip().startswith('char')]:
+        p0 = q.param_by_index(f, 0)
+        cs_ = [i for i in f.calls() if f.bcallee(i) == CR + '::key::set_hex']
+        nonnull = f.gate_edges(lambda atom, pol: (f.N(atom)['k'] == 'BinaryOperator' and f.N(atom).get('op') in ('==', '!=') and f.ref_of(f.N(atom)['ch'][0]) == p0 and f.const_value(f.N(atom)['ch'][1]) == 0 and pol is (f.N(atom).get('op') == '!=')) or
+                               (f.ref_of(atom) == p0 and pol is True))
+        ok_ = len(cs_) == 1 and bool(nonnull) and f.only_through(cs_[0], nonnull)
+        ctx.check(ok_, R10, 'key::key(char const*):non-null-text-decoded', 'a non-null text does not reach set_hex, or a null pointer does', f.where)
+    for f in (sh, rf):
+        rs_ = [i for i in f.calls() if f.bcallee(i) == CR + '::key::reset']
+        others = [i for i in f.calls() if i not in rs_] + [i for i in f.all_nodes() if f.N(i)['k'] in ('ReturnStmt', 'CXXThrowExpr')]
+        ctx.check(len(rs_) >= 1 and all(q.before(f, rs_[0], i) for i in others if not f.contains(rs_[0], i) and f.point_of(i) is not None), R10, 'key::%s:old-key-dropped-first' % f.short, 'the previous key is not released before anything else: an empty text would leave the old key in place', f.where)
+    kr = P.fn(CR + '::key::reset')
+    it = absint.Interp(P, [], hooks={'memset': zero})
+    it.fields = {'f:' + K + 'data_': Cell(PV(Arr([AV.const(65)] * 5, 'k'), 0)), 'f:' + K + 'size_': Cell(AV.const(5))}
+    try:
+        it.call_fn(kr, [])
+        d_, z_ = it.fields['f:' + K + 'data_'].v, it.fields['f:' + K + 'size_'].v
+        okr_ = isinstance(d_, AV) and d_.is_const() and d_.lo == 0 and isinstance(z_, AV) and z_.is_const() and z_.lo == 0
+    except (absint.OutOfBounds, absint.Unsupported):
+        okr_ = False
+    ctx.check(okr_, R10, 'key::reset:leaves-the-empty-key', 'after reset() the key is not (data_ = 0, size_ = 0)', kr.where)
+    for (nm_, fld_) in (('data', 'data_'), ('size', 'size_')):
+        f = P.fn(CR + '::key::' + nm_)
+        rets = [i for i in f.all_nodes() if f.N(i)['k'] == 'ReturnStmt']
+        vals_ = [f.ref_of(f.N(i)['ch'][0]) if f.N(i)['ch'] else None for i in rets]
+        nonfld = [i for i, v in zip(rets, vals_) if v != 'f:' + K + fld_]
+        okd = ('f:' + K + fld_) in vals_ and (nm_ == 'size' and not nonfld or nm_ == 'data' and len(nonfld) <= 1)
+        if okd and nm_ == 'data' and nonfld:
+            it = absint.Interp(P, [])
+            it.fields = {'f:' + K + 'data_': Cell(PV(Arr([AV.const(65), AV.const(0)], 'k'), 0)), 'f:' + K + 'size_': Cell(AV.const(1))}
+            try:
+                r_ = it.call_fn(f, [])
+                okd = isinstance(r_, PV) and r_.arr.name == 'k' and r_.off == 0
+            except (absint.OutOfBounds, absint.Unsupported):
+                okd = False
+        if okd and nm_ == 'data':
+            it = absint.Interp(P, [])
+            it.fields = {'f:' + K + 'data_': Cell(AV.const(0)), 'f:' + K + 'size_': Cell(AV.const(0))}
+            try:
+                r_ = it.call_fn(f, [])
+                okd = isinstance(r_, PV)        # the empty key still yields a valid (empty) text, callers hand it to memcpy / append
+            except (absint.OutOfBounds, absint.Unsupported):
+                okd = False
+        ctx.check(okd, R10, 'key::%s:returns-%s' % (nm_, fld_), 'the accessor does not return the stored %s' % fld_, f.where)
 
     # ---------------- R6 CBC chaining state (compiled back-end)
     PA = model.Program(build.extract([REPO + '/src/aes.cpp'], include_re='^/repo/(src|private|cppcms)/'))
@@ -361,11 +689,140 @@ def run(ctx):
             ctx.check(bool(refs) and all(r == datap or r.startswith('v:') for r in refs), R7, 'md5_process:%s:derived-from-data' % v.split(':')[1].split('@')[0],
                       'message words are read through a pointer that is not derived from the block handed in: %s' % sorted(refs - {datap}), mp.loc(dn))
     ctx.check(n7 >= 2, R7, 'md5_process:block-sources-found', 'expected the aligned / unaligned sources of the message words', mp.where)
-    ctx.floor(R1, 14)
+    # ---------------- R8 MD5 buffering and padding by abstract interpretation (md5_append / md5_finish interpreted, md5_process replaced by a recorder)
+    ma, mf = P.fn('cppcms::impl::md5_append'), P.fn('cppcms::impl::md5_finish')
+    fld = {}
+    for g_ in (ma, mf):
+        for i in g_.all_nodes():
+            n_ = g_.N(i)
+            if n_['k'] == 'MemberExpr' and (n_.get('ref') or '').startswith('f:'):
+                fld[n_['ref'].rsplit('::', 1)[-1]] = n_['ref']
+    ctx.require(all(x in fld for x in ('count', 'abcd', 'buf')), 'C16.R8: md5_state_t fields count/abcd/buf not found in md5_append / md5_finish (%s)' % sorted(fld))
+    ABCD = [0x01020304, 0x11121314, 0x21222324, 0x31323334]
+
+    def md5_machine(fill, count0, count1):
+        blocks = []
+
+        def hook(it, fn, i, env):
+            a = fn.args(i)
+            p = it.rvalue(fn, a[1], env)
+            if isinstance(p, Arr):
+                p = PV(p, 0)
+            if not isinstance(p, PV):
+                raise absint.Unsupported('md5_process block argument')
+            blocks.append([it.load(('elem', PV(p.arr, p.off + j))) for j in range(64)])
+            return None
+        it = absint.Interp(P, [], hooks={'cppcms::impl::md5_process': hook})
+        buf = Arr([AV.const(500 + j) if j < fill else AV.const(0x7777) for j in range(64)], 'buf')
+        it.fields = {fld['buf']: Cell(buf), fld['count']: Cell(Arr([AV.const(count0), AV.const(count1)], 'count')), fld['abcd']: Cell(Arr([AV.const(v) for v in ABCD], 'abcd'))}
+        return it, blocks, buf
+
+    def tag(e):
+        return e.lo if e.is_const() else None
+    bad = []
+    nruns = 0
+    grid = [(o, n) for o in range(64) for n in range(1, 131)] + [(o, n) for o in (0, 1, 63) for n in (191, 192, 193, 255, 256, 257)]
+    for (off, nb) in grid:
+        base = 0 if (off + nb) % 2 else 64 * 8 * 3
+        it, blocks, buf = md5_machine(off, base + off * 8, 0)
+        data = Arr([AV.const(1000 + j) for j in range(nb)], 'data')
+        try:
+            it.call_fn(ma, [PV(Arr([AV.const(0)], 'pms'), 0), PV(data, 0), AV.const(nb)])
+        except (absint.OutOfBounds, absint.Unsupported) as e:
+            bad.append((off, nb, str(e)))
+            continue
+        nruns += 1
+        stream = [500 + j for j in range(off)] + [1000 + j for j in range(nb)]
+        want = [stream[k:k + 64] for k in range(0, len(stream) - 63, 64)]
+        rest = stream[len(want) * 64:]
+        got = [[tag(e) for e in b] for b in blocks]
+        cnt = it.fields[fld['count']].v.elems
+        if got != want:
+            bad.append((off, nb, 'blocks handed to md5_process are not the 64-byte tiles of the byte stream (%d handed, %d expected%s)' % (len(got), len(want), '' if len(got) != len(want) else ', contents differ')))
+        elif [tag(e) for e in buf.elems[:len(rest)]] != rest:
+            bad.append((off, nb, 'the %d pending bytes are not kept at the start of the buffer' % len(rest)))
+        elif (tag(cnt[0]), tag(cnt[1])) != (base + (off + nb) * 8, 0):
+            bad.append((off, nb, 'bit count after the call is (%s,%s), expected (%d,0)' % (tag(cnt[0]), tag(cnt[1]), base + (off + nb) * 8)))
+    ctx.check(not bad, R8, 'md5_append:tiles-the-stream:every-fill-level-x-length', ('pending %d bytes, append of %d: %s' % bad[0]) if bad else '', ma.where, detail={'runs': nruns, 'grid': len(grid)})
+    # carry of the 64-bit bit count
+    it, blocks, buf = md5_machine(0, 0xFFFFFE00, 7)
+    okc = False
+    why = ''
+    try:
+        it.call_fn(ma, [PV(Arr([AV.const(0)], 'pms'), 0), PV(Arr([AV.const(1000 + j) for j in range(128)], 'data'), 0), AV.const(128)])
+        cnt = it.fields[fld['count']].v.elems
+        okc = (tag(cnt[0]), tag(cnt[1])) == (0x200, 8)
+        why = 'count = (%s,%s), expected (0x200, 8)' % (tag(cnt[0]), tag(cnt[1]))
+    except (absint.OutOfBounds, absint.Unsupported) as e:
+        why = str(e)
+    ctx.check(okc, R8, 'md5_append:bit-count-carries-into-the-high-word', why, ma.where)
+    nil = md5_machine(5, 64 * 8 + 40, 0)
+    try:
+        nil[0].call_fn(ma, [PV(Arr([AV.const(0)], 'pms'), 0), PV(Arr([AV.const(1)], 'data'), 0), AV.const(0)])
+        cnt = nil[0].fields[fld['count']].v.elems
+        okn = not nil[1] and tag(cnt[0]) == 64 * 8 + 40 and [tag(e) for e in nil[2].elems[:5]] == [500 + j for j in range(5)]
+    except (absint.OutOfBounds, absint.Unsupported) as e:
+        okn = False
+    ctx.check(okn, R8, 'md5_append:empty-piece-changes-nothing', 'an append of zero bytes changes the state', ma.where)
+    # the high word receives the bits of a piece that do not fit the low word: evaluated on the expression stored into count[1]
+    npar = q.param_by_index(ma, 2)
+    hi_adds = []
+    for i in ma.all_nodes():
+        n_ = ma.N(i)
+        if n_['k'] == 'CompoundAssignOperator' and n_.get('op') == '+=':
+            l_ = ma.N(ma.strip(n_['ch'][0]))
+            if l_['k'] == 'ArraySubscriptExpr' and ma.N(ma.strip(l_['ch'][0])).get('ref') == fld['count'] and ma.const_value(l_['ch'][1]) == 1:
+                hi_adds.append(n_['ch'][1])
+    okh = len(hi_adds) == 1
+    whyh = '%d additions to count[1] found' % len(hi_adds)
+    if okh:
+        for v in (1, (1 << 29) - 1, 1 << 29, (3 << 29) + 5, 0x7FFFFFFF):
+            it = absint.Interp(P, [])
+            it.fields = {}
+            try:
+                r_ = it.rvalue(ma, hi_adds[0], {npar: Cell(AV.const(v))})
+                if not (r_.is_const() and r_.lo == v >> 29):
+                    okh, whyh = False, 'a piece of %d bytes adds %s to the high word, expected %d' % (v, r_, v >> 29)
+                    break
+            except (absint.OutOfBounds, absint.Unsupported) as e:
+                okh, whyh = False, str(e)
+                break
+    ctx.check(okh, R8, 'md5_append:high-word-gets-nbytes*8>>32', whyh, ma.where)
+    mi_it, _, _ = md5_machine(0, 0x1234, 0x77)
+    try:
+        mi_it.call_fn(mi, [PV(Arr([AV.const(0)], 'pms'), 0)])
+        st_ = [tag(e) for e in mi_it.fields[fld['abcd']].v.elems] + [tag(e) for e in mi_it.fields[fld['count']].v.elems]
+        oki, whyi = [(x or 0) & 0xFFFFFFFF for x in st_] == INIT + [0, 0], 'state after md5_init is %s' % [hex((x or 0) & 0xFFFFFFFF) for x in st_]
+    except (absint.OutOfBounds, absint.Unsupported) as e:
+        oki, whyi = False, str(e)
+    ctx.check(oki, R8, 'md5_init:A,B,C,D-and-zero-count', whyi, mi.where)
+    bad = []
+    for b in range(64):
+        c0, c1 = (64 * 3 + b) * 8, 0x85868788
+        it, blocks, buf = md5_machine(b, c0, c1)
+        out = Arr([AV.const(0xEE)] * 16, 'digest')
+        try:
+            it.call_fn(mf, [PV(Arr([AV.const(0)], 'pms'), 0), PV(out, 0)])
+        except (absint.OutOfBounds, absint.Unsupported) as e:
+            bad.append((b, str(e)))
+            continue
+        stream = [500 + j for j in range(b)] + [0x80] + [0] * ((55 - b) % 64) + list(struct.pack('<II', c0, c1))
+        want = [stream[k:k + 64] for k in range(0, len(stream), 64)]
+        got = [[(tag(e) if tag(e) is None or tag(e) >= 500 else tag(e) & 0xFF) for e in bl] for bl in blocks]
+        if got != want:
+            bad.append((b, '%d block(s) compressed, expected %d%s' % (len(got), len(want), '' if len(got) != len(want) else '; padding / length bytes differ from RFC 1321 3.1-3.2')))
+        elif [(tag(e) or 0) & 0xFF for e in out.elems] != list(struct.pack('<4I', *ABCD)):
+            bad.append((b, 'digest bytes are not the little-endian state words A,B,C,D'))
+    ctx.check(not bad, R8, 'md5_finish:padding-length-and-readout:every-fill-level', ('fill level %d: %s (messages of length = %d mod 64 get a non-standard digest)' % (bad[0][0], bad[0][1], bad[0][0])) if bad else '',
+              mf.where, detail={'fill_levels': 64})
+    ctx.floor(R8, 6)
+    ctx.floor(R9, 9)
+    ctx.floor(R10, 18)
+    ctx.floor(R1, 25)
     ctx.floor(R7, 3)
     ctx.floor(R2, 6)
     ctx.floor(R3, 20)
-    ctx.floor(R4, 7)
-    ctx.floor(R5, 4)
+    ctx.floor(R4, 9)
+    ctx.floor(R5, 5)
     ctx.floor(R6, 1)
     ctx.trust('standard tables computed in rules/C16.py (sin table, sqrt constants, initial words, FIPS sizes); OpenSSL SHA2 primitives')
